@@ -299,7 +299,10 @@ fn point_deserialize<'de, D>(d: D) -> Result<Point, D::Error>
 where
   D: de::Deserializer<'de>,
 {
-  let s: &str = de::Deserialize::deserialize(d)?;
+  // an owned string: a borrowed `&str` can only be produced when the JSON text
+  // is held in memory and the string contains no escape sequence, which rules
+  // out `from_reader`, `from_value` and e.g. `\/` inside the base64 text
+  let s: String = de::Deserialize::deserialize(d)?;
   let data = BASE64_STANDARD.decode(s).map_err(de::Error::custom)?;
   let fixed_data: [u8; 32] = data
     .try_into()
